@@ -445,6 +445,8 @@ class Interp:
             m = self.models.seq_method(o, name)
             if m is not None:
                 return Bound(o, ('model', m))
+            if hasattr(pycls, name):
+                raise Unsupported('%s.%s on a symbolic sequence is not modelled' % (pycls.__name__, name))
             py_raise(AttributeError, '%r object has no attribute %r' % (pycls.__name__, name))
         if isinstance(o, type) and (o.__module__ or '').startswith('mido'):
             k, v = mro_lookup(o, name)
@@ -472,7 +474,11 @@ class Interp:
             m = self.models.scalar_method(o, name)
             if m is not None:
                 return Bound(o, ('model', m))
-            py_raise(AttributeError, '%s object has no attribute %r' % (type(o).__name__, name))
+            real = {SStr: str, SInt: int, SBool: bool, SReal: float}[type(o)]
+            if hasattr(real, name):
+                # the real type has it, the model does not: undecided - never a Python-level AttributeError
+                raise Unsupported('%s.%s on a symbolic value is not modelled' % (real.__name__, name))
+            py_raise(AttributeError, '%r object has no attribute %r' % (real.__name__, name))
         if isinstance(o, GenObj):
             m = self.models.gen_method(o, name)
             if m is not None:
@@ -669,6 +675,15 @@ class Interp:
             elif isinstance(t, ast.Subscript):
                 o = self.eval(t.value, fr)
                 k = self.eval_slice(t.slice, fr)
+                if isinstance(k, SliceVal):
+                    if has_sym([k.lo, k.hi, k.step]):
+                        raise Unsupported('del of a slice with symbolic bounds')
+                    if isinstance(o, Cell) and k.lo is None and k.hi is None and k.step is None:
+                        self.models.sq_clear(self, o)         # del c[:]  empties the list object in place
+                        continue
+                    if isinstance(o, Cell):
+                        raise Unsupported('del of a proper slice of a list of unknown length')
+                    k = slice(k.lo, k.hi, k.step)
                 if isinstance(o, (dict, list)) and not is_sym(k):
                     try:
                         del o[k]
